@@ -14,7 +14,25 @@ def _replace():
         out[k] = v
     return out or None
 
-FILES = ["ks/zz_verif_ks_common_test.go", "ks/zz_verif_ks_overlap_test.go", "C01/zz_verif_c01_test.go"]
+FILES = ["ks/zz_verif_ks_common_test.go", "ks/zz_verif_ks_hook_test.go", "ks/zz_verif_ks_overlap_test.go", "C01/zz_verif_c01_test.go"]
+
+from .ks_instr import UV, instrument, instrumented_overlay  # noqa: E402
+
+
+def _stage(ctx, name, n, hdr, **kw):
+    """The overlap cases overwrite every pooled buffer also at the filesystem steps INSIDE the volume work
+    (yield points of tools/instrument; the hooks do nothing else, and nothing at all in the other cases).
+    If the working-tree unix_volume.go cannot be instrumented the stage runs on the plain file: C01's
+    model does not depend on the yield points."""
+    inst, err, warn = instrument(ctx, tolerant=True)
+    rep = dict(_replace() or {})
+    if err is None:
+        rep[UV] = inst
+        with instrumented_overlay():
+            return ctx.stage(name, KS, "main", FILES, "TestVerifC01$", n, hdr, replace=rep, **kw)
+    ctx.notes.append("unix_volume.go not instrumented (%s): no pool overwrites inside the volume work" % err[:200])
+    return ctx.stage(name, KS, "main", FILES, "TestVerifC01$", n, hdr, replace=rep or None, **kw)
+
 
 
 def run(ctx):
@@ -22,18 +40,19 @@ def run(ctx):
     hdr = HDR.format(imports="model.C01_model model.C01_run") + "Local Open Scope N_scope.\n"
 
     def stages(ctx, mult, suffix, off):
-        ctx.stage("c01" + suffix, KS, "main", FILES, "TestVerifC01$", n * mult, hdr, seed_offset=off, shard=60,
-                  env={"VERIF_STAGE": "c01" + suffix}, timeout=1500, replace=_replace())
+        _stage(ctx, "c01" + suffix, n * mult, hdr, seed_offset=off, shard=60,
+               env={"VERIF_STAGE": "c01" + suffix}, timeout=1500)
         if ctx.tier == "thorough" and not suffix:
-            ctx.stage("c01x", KS, "main", FILES, "TestVerifC01$", 1884, hdr, shard=120,
-                      env={"VERIF_STAGE": "c01x", "VERIF_C01_MODE": "exhaustive"}, timeout=1500, replace=_replace())
+            _stage(ctx, "c01x", 1884, hdr, shard=120,
+                   env={"VERIF_STAGE": "c01x", "VERIF_C01_MODE": "exhaustive"}, timeout=1500)
     return standard(ctx, "C01", ["model/C01_run.vo"], stages,
                     rule="1-3 Directory volumes (every RO/RW mix, full / unwritable prefix), 1-2 blocks (sizes 0,1,2,63,64,65,100,4096, "
-                         "random, an MD5 collision pair, rarely exactly 64 MiB), a corruption pattern per copy, 1-6 GET/HEAD/PUT requests; "
+                         "random, an MD5 collision pair, rarely exactly 64 MiB), a corruption pattern per copy, 1-6 GET/HEAD/PUT requests; 40 % of the cases with a real 2-3 buffer pool and requests stalled inside their response write / body upload while 1-2 other requests run and pooled buffers are overwritten; "
                          "distinct by hash of the case term; non-trivial = some copy is neither intact nor absent, or a GET/PUT was refused",
                     assumptions=["block bytes are abstracted to {cid; length}; the digest is the table of MD5 values computed by Go for the contents of the case (theorems hold for every digest function)",
                                  "requests are sent to the handler returned by handler.setup (MakeRESTRouter) through httptest.ResponseRecorder: HTTP framing by net/http is not exercised",
-                                 "Touch of a file that was just read successfully is assumed to succeed (no concurrent actor; that race is C04)"])
+                                 "Touch of a file that was just read successfully is assumed to succeed (no concurrent actor; that race is C04)",
+                                 "overlap cases: the other requests run inside the stalled request's Write/Read call under GOMAXPROCS(1) (sync.Pool hands a returned buffer to the next taker only within one P); the case is evaluated as the request sequence in linearisation order, justified by C01_overlapping_requests_linearizable"])
 
 
 def dev(ctx, n, extra):
@@ -42,4 +61,4 @@ def dev(ctx, n, extra):
     core.coq_make(["model/C01_run.vo"])
     e = {"VERIF_STAGE": "c01"}
     e.update(extra)
-    ctx.stage("c01", KS, "main", FILES, "TestVerifC01$", n, hdr, shard=60, env=e, timeout=1500, replace=_replace())
+    _stage(ctx, "c01", n, hdr, shard=60, env=e, timeout=1500)
